@@ -1339,7 +1339,7 @@ def m_result_map_err(it, S, t, callee, args):
     return ("upd", R, (((("dc", 0, "Ok"), ("f", 0, "0")), project(v, (("dc", 0, "Ok"), ("f", 0, "0")))),))
 
 
-@model("core::option::Option::ok_or")
+@model("core::option::Option::ok_or", "core::option::Option::ok_or_else")
 def m_ok_or(it, S, t, callee, args):
     # Some(v) -> Ok(v), None -> Err(e) (std documentation)
     v = args[0]
@@ -1356,6 +1356,9 @@ def m_ok_or(it, S, t, callee, args):
         d = S.dom(dv)
         if d.lo == d.hi:
             S.set_dom(dr, Dom(1 - d.lo, 1 - d.lo))
+    if norm_name(callee.get("pretty")).endswith("ok_or_else"):
+        # the error value is whatever the closure builds (analysed as its own body); the success value passes through
+        return ("upd", R, (((("dc", 0, "Ok"), ("f", 0, "0")), project(v, (("dc", 1, "Some"), ("f", 0, "0")))),))
     return ("upd", R, (((("dc", 0, "Ok"), ("f", 0, "0")), project(v, (("dc", 1, "Some"), ("f", 0, "0")))),
                        ((("dc", 1, "Err"), ("f", 0, "0")), args[1])))
 
